@@ -36,7 +36,7 @@ def fingerprint(net):
     return h.hexdigest()[:16]
 
 
-async def reader_cancel_sweep(flavor, seg, cnt, v, sigs):
+async def reader_cancel_sweep(flavor, seg, cnt, v, sigs, with_settings=False):
     """On a multiplexed HTTP/2 connection whichever caller holds the read lock reads for all streams. Caller A waits
     for a late response (so it keeps reading), caller C downloads a body whose frames arrive in several reads, and A is
     cancelled at its k-th suspension point, for every k and every cancellation style. C must get exactly its own body
@@ -60,8 +60,15 @@ async def reader_cancel_sweep(flavor, seg, cnt, v, sigs):
                 return Resp(200, b"OK", [(b"X-Echo", tok)], b"a" * 100, delay=50.0)
             return Resp(200, b"OK", [(b"X-Echo", tok)], body_c if tok == b"C" else b"w", delay=0.2 if tok == b"C" else 0.0)
 
-        endpoints.Origin(net, "o.test", 443, tls=True, alpn=["h2"], responder=responder,
-                         h2_script={"settings": {3: 100}, "data_chunk": 1400})
+        script = {"settings": {3: 100}, "data_chunk": 1400}
+        if with_settings:
+            # a SETTINGS frame reaches the client in the same read as the first frames of C's response, and A's trace callback
+            # awaits: A can be cancelled in the middle of handling the settings change, with C's events already read
+            script["actions"] = [{"when": ("head", 2), "do": "settings", "settings": {3: 50}, "delay": 0.2}]
+        endpoints.Origin(net, "o.test", 443, tls=True, alpn=["h2"], responder=responder, h2_script=script)
+
+        async def a_trace(name, info):
+            await anyio.lowlevel.checkpoint()
         pool = mk_pool(flavor, net, http2=True, max_connections=1)
         api = API(flavor, pool, net)
         res = {}
@@ -72,7 +79,8 @@ async def reader_cancel_sweep(flavor, seg, cnt, v, sigs):
             async def a_caller():
                 simnet.CALL.set("A")
                 res["A"], res["K"] = await runners.run_with_cancel(
-                    flavor, lambda: api.request("GET", "https://o.test/a", headers=[("X-Token", "A")]), style, k)
+                    flavor, lambda: api.request("GET", "https://o.test/a", headers=[("X-Token", "A")],
+                                                extensions={"trace": a_trace} if with_settings else {}), style, k)
 
             async def c_caller():
                 simnet.CALL.set("C")
@@ -100,7 +108,7 @@ async def reader_cancel_sweep(flavor, seg, cnt, v, sigs):
         for k in range(1, K + 1):
             out, res, ntr = await one(style, k)
             cnt["reader_cancel_runs"] += 1
-            ctx = {"flavor": flavor, "seg": seg, "style": style, "k": k, "of": K}
+            ctx = {"flavor": flavor, "seg": seg, "style": style, "k": k, "of": K, "settings-in-the-read": with_settings}
             c = res.get("C")
             if out.kind == "hang" or c is None:
                 v("reader-cancel:other-stream-never-completes", f"A cancelled ({style}) at suspension point {k}/{K}: the other "
@@ -116,7 +124,7 @@ async def reader_cancel_sweep(flavor, seg, cnt, v, sigs):
                 cnt["reader_cancel_other_failed"] += 1
                 if not documented(c.exc):
                     v("reader-cancel:undocumented:" + exc_name(c.exc), repr(c.exc), ctx)
-            sigs.add(f"reader-cancel|{flavor}|{seg}|{style}|{k}")
+            sigs.add(f"reader-cancel|{flavor}|{seg}|{style}|{k}|{with_settings}")
 
 
 async def early_answer_sweep(flavor, ctype, cnt, v, sigs):
@@ -190,7 +198,7 @@ def run_case(case):
         if case.get("kind") == "reader-cancel":
             for key in ("reader_cancel_runs", "reader_cancel_other_ok", "reader_cancel_other_failed"):
                 cnt[key] = 0
-            await reader_cancel_sweep(case["flavor"], case["seg"], cnt, v, sigs)
+            await reader_cancel_sweep(case["flavor"], case["seg"], cnt, v, sigs, with_settings=bool(case.get("settings")))
             return
         for spec in case["specs"]:
             wl = Workload(spec)
@@ -258,4 +266,6 @@ def plan(tier, seed):
     for flavor in ("asyncio", "trio"):
         for seg in ((300, 900, "all") if tier == "quick" else (300, 900, 1400, 5000, "all")):
             cases.append({"kind": "reader-cancel", "flavor": flavor, "seg": seg, "seed": 1})
+        for seg in (("all",) if tier == "quick" else (900, "all")):
+            cases.append({"kind": "reader-cancel", "flavor": flavor, "seg": seg, "settings": True, "seed": 1})
     return cases
